@@ -332,7 +332,7 @@ func runTruncateBig(c *core.Ctx) {
 		n = 15000 + c.Rng.Intn(3000)
 	}
 	text := seqText(c.Rng, n, fastq)
-	if c.Idx%3 == 2 {
+	if c.Idx >= 8 && c.Idx%16 >= 8 {
 		// long reads: a dozen records of 70-300 kb each (the first record alone is larger than a
 		// 64 KiB look-ahead)
 		n = 8 + c.Rng.Intn(8)
@@ -352,6 +352,31 @@ func runTruncateBig(c *core.Ctx) {
 	if err != nil {
 		c.Inconclusive("cannot compress: " + err.Error())
 		return
+	}
+	// gzip and zstd: the compressor is flushed between records (what a streaming producer does), and
+	// the file is also cut exactly there: the prefix decodes to whole records, then the stream breaks
+	var flushCuts []int
+	if codec == "gzip" || codec == "zstd" {
+		var parts [][]byte
+		start := byte('>')
+		if fastq {
+			start = '@'
+		}
+		last := 0
+		for i := 1; i < len(text); i++ {
+			if text[i] == start && text[i-1] == '\n' && (!fastq || i+1 < len(text) && text[i+1] != '\n') {
+				if !fastq || bytes.Count(text[last:i], []byte("\n"))%4 == 0 {
+					if len(parts) < 400 || i-last > 50000 {
+						parts = append(parts, text[last:i])
+						last = i
+					}
+				}
+			}
+		}
+		parts = append(parts, text[last:])
+		if fc, cuts, err := gen.CompressFlushed(codec, parts); err == nil {
+			comp, flushCuts = fc, cuts
+		}
 	}
 	ext := ".fasta"
 	if fastq {
@@ -378,9 +403,19 @@ func runTruncateBig(c *core.Ctx) {
 	for i := 0; i < c.Pick(3, 12); i++ {
 		cuts = append(cuts, len(comp)-1-c.Rng.Intn(12))
 	}
+	for i := 0; i < c.Pick(6, 24) && len(flushCuts) > 0; i++ {
+		cuts = append(cuts, flushCuts[c.Rng.Intn(len(flushCuts))])
+		c.Count("cuts_at_flush_points", 1)
+	}
 	for i, k := range cuts {
 		os.WriteFile(base, comp[:k], 0o644)
 		checkTrunc(c, codec, "big", tg[(i+c.Idx)%len(tg)], base, k, len(comp), n)
+	}
+	// the earliest flush points (the first records) with the guessed-format and the forced-format readers
+	for i := 0; i < min(3, len(flushCuts)); i++ {
+		os.WriteFile(base, comp[:flushCuts[i]], 0o644)
+		checkTrunc(c, codec, "big", tg[0], base, flushCuts[i], len(comp), n)
+		checkTrunc(c, codec, "big", tg[1], base, flushCuts[i], len(comp), n)
 	}
 	for i := 0; i < c.Pick(4, 16); i++ {
 		b := c.Rng.Intn(len(comp) * 8)
@@ -544,7 +579,8 @@ func runBitflip(c *core.Ctx, codec string) {
 			region = "trailer"
 		}
 		for ti, t := range tgs {
-			if ti != fi%len(tgs) && (c.Quick() || region == "body") { // every target on the header and trailer bits in the thorough tier
+			structural := codec == "xz" && b/8 == 12                                 // size byte of the first block header: every target, always
+			if !structural && ti != fi%len(tgs) && (c.Quick() || region == "body") { // every target on the header and trailer bits in the thorough tier
 				continue
 			}
 			res := runCmd(c, t, base)
@@ -761,7 +797,7 @@ func init() {
 		subs = append(subs, core.Sub{Name: "bitflip-" + codec, N: core.Const(4, 24), Shard: 2, TimeoutS: 3000, Run: func(c *core.Ctx) { runBitflip(c, codec) }})
 	}
 	subs = append(subs, core.Sub{Name: "gzip-stdin-asan", N: core.Const(4, 24), TimeoutS: 3000, Run: runTruncateAsan})
-	subs = append(subs, core.Sub{Name: "truncate-big", N: core.Const(8, 32), TimeoutS: 3000, Run: runTruncateBig})
+	subs = append(subs, core.Sub{Name: "truncate-big", N: core.Const(16, 48), TimeoutS: 3000, Run: runTruncateBig})
 	subs = append(subs, core.Sub{Name: "readerr", N: core.Const(32, 128), Run: runReadErr})
 	core.Register(&core.Property{
 		ID:    "C17",
